@@ -68,10 +68,16 @@ func Check(file []byte, p Pos) []Disagreement {
 	if p.Start < 0 || p.Start > n {
 		out = append(out, Disagreement{"range-start", fmt.Sprintf("Start=%d outside [0,%d]", p.Start, n)})
 	}
-	if p.End < 0 || p.End > n {
-		// End = -1 is allowed together with Start = 0 (empty range at the beginning)
+	// End is the index of the last byte: it lies in [0,n-1]; it may be n only for a
+	// position at the end of the file (Start = n), and -1 for an empty range at
+	// the beginning (Start = 0).
+	maxEnd := n - 1
+	if p.Start >= n {
+		maxEnd = n
+	}
+	if p.End < 0 || p.End > maxEnd {
 		if !(p.End == -1 && p.Start == 0) {
-			out = append(out, Disagreement{"range-end", fmt.Sprintf("End=%d outside [0,%d]", p.End, n)})
+			out = append(out, Disagreement{"range-end", fmt.Sprintf("End=%d outside [0,%d]", p.End, maxEnd)})
 		}
 	}
 	if p.End < p.Start-1 {
